@@ -21,10 +21,31 @@ def run(chk):
     ]
     ok = chk.check_theorems()
     rc.run_runner_check(chk, "C13", "proj_C13", OPTS, theorems_ok=ok)
+    # the sugar entry points (RetryPolicy and its context manager, the decorator, from_config, attribute configuration) classify the
+    # final exception once more for the absent breaker, so they are compared with the Policy model (breaker = None, full trace) and
+    # judged by the same oracle
+    import oracles
+    import policy_common as pc
+
+    def sugar_oracle(seqs, obs):
+        return [(i, m) for i, (s, o) in enumerate(zip(seqs, obs)) for m in [oracles.check_seq("C13", s, o)] if m]
+
+    pc.run_policy_check(chk, "C13", "proj_P12", dict(OPTS, entries=["retrypolicy", "retrypolicy.ctx", "decorator", "decorator", "retrypolicycfg",
+                                                                      "retrypolicyattr"], p_no_retry=0.0, p_breaker=0.0),
+                        oracle_pid="none", theorems_ok=ok, cov_key="sugar_entries", n_quick=150, n_thorough=2000, extra_oracle=sugar_oracle)
     if ok:
         import source_tie
         source_tie.runner_ties(chk)
 
 
 def replay(path):
+    import json
+    r = json.load(open(path))
+    if r.get("oracle") == "none":       # a script of the sugar part: same driver, the C13 oracle
+        import oracles
+        so = rc.run_impl([r["script"]], jobs=1)[0]
+        msg = oracles.check_seq("C13", r["script"], so)
+        print(json.dumps(so)[:3000])
+        print("oracle:", msg or "holds")
+        return 1 if msg else 0
     return rc.replay_runner(path)
